@@ -1,6 +1,6 @@
 #!/usr/bin/env python3
-"""Writes benign/<id>-d<N>/meta.json for the third benign round (development tooling).
-usage: mkmeta_benign3.py <final run_benign output>"""
+"""Writes benign/<id>-<letter><N>/meta.json for a benign round (development tooling).
+usage: mkmeta_benign.py <letter> <round> <first run output> <final run output>"""
 import json, re, sys, glob, os
 V = '/verif'
 def parse(path):
@@ -14,10 +14,11 @@ def parse(path):
             for r in re.findall(r'\[(R[\d.]+\w*)\]|FLOOR: (R[\d.]+\w*)/', l):
                 out[cur][1].add(r[0] or r[1])
     return out
-first = parse(V + '/benign/round3_first_run.txt')
-final = parse(sys.argv[1])
+letter, rnd = sys.argv[1], int(sys.argv[2])
+first = parse(sys.argv[3])
+final = parse(sys.argv[4])
 n = 0
-for d in sorted(glob.glob(V + '/benign/C*-d*')):
+for d in sorted(glob.glob(V + '/benign/C*-' + letter + '*')):
     bid = os.path.basename(d)
     what = ''
     for md in sorted(glob.glob(d + '/*.md')):
@@ -28,7 +29,7 @@ for d in sorted(glob.glob(V + '/benign/C*-d*')):
         if what:
             break
     f = first.get(bid, ['?', set()])
-    meta = {'id': bid, 'property': bid[:3], 'round': 3, 'what': what, 'first_run': f[0], 'first_run_rules': sorted(f[1]), 'now': final.get(bid, ['?'])[0]}
+    meta = {'id': bid, 'property': bid[:3], 'round': rnd, 'what': what, 'first_run': f[0], 'first_run_rules': sorted(f[1]), 'now': final.get(bid, ['?'])[0]}
     if meta['now'] == 'ALARM':
         meta['now_rules'] = sorted(final[bid][1])
     json.dump(meta, open(d + '/meta.json', 'w'), indent=1)
